@@ -384,6 +384,46 @@ pub fn run(tier: Tier) -> i32 {
             }
             st.enumerated(5 * 2 * 4 * 2 * 256, 5 * 2 * 4 * 2 * 256);
             st.class_n("bcd-digits:near-limit-prefix-x-every-last-byte", 5 * 2 * 4 * 2 * 256);
+            // the same around every accumulator width an implementation might use (2^8 .. 2^128), for every target type:
+            // leading digits at 2^w / 100 and 2^w / 10 (and neighbours), then every possible last byte
+            let digits128 = |mut v: u128| -> Vec<u8> {
+                let mut d = vec![];
+                while v > 0 {
+                    d.push((v % 10) as u8);
+                    v /= 10;
+                }
+                if d.len() % 2 == 1 {
+                    d.push(0);
+                }
+                d.reverse();
+                d.chunks(2).map(|c| c[0] << 4 | c[1]).collect()
+            };
+            let mut nw = 0u64;
+            for ty in TYS {
+                for w in [8u32, 16, 32, 64, 128] {
+                    let limit: u128 = if w == 128 { u128::MAX } else { (1u128 << w) - 1 };
+                    if limit <= tymax(ty) as u128 {
+                        continue; // covered by the type's own limit above
+                    }
+                    for div in [100u128, 10] {
+                        for d in [-2i32, -1, 0, 1] {
+                            let base = (limit / div).wrapping_add(d as i128 as u128);
+                            let prefix = digits128(base);
+                            for last in 0..=255u8 {
+                                let mut b = prefix.clone();
+                                b.push(last);
+                                let r = check_bcd_digits(ty, &b);
+                                nw += 1;
+                                if r.is_err() {
+                                    ctx.record(r, st);
+                                }
+                            }
+                        }
+                    }
+                }
+            }
+            st.enumerated(nw, nw);
+            st.class_n("bcd-digits:near-2^w-prefix-x-every-last-byte(w=8..128)", nw);
             // every 1- and 2-byte string exhaustively (strict and non-strict alike)
             for a in 0..=255u8 {
                 for ty in TYS {
